@@ -244,7 +244,9 @@ def run_once(r):
         r.violate("C05", "hang", attrs, "octosql did not terminate within 60s: %s -o %s" % (sql, mode))
         return
     text = p.stdout.decode("utf-8", "replace")
-    r.log("exit=%d stdout:\n%s" % (p.returncode, ANSI.sub("", text)[-1500:]))
+    r.log("exit=%d" % p.returncode)
+    # not hashed: without a top-level ORDER BY the order of the printed rows is the operating system's schedule
+    r.note("stdout:\n%s" % ANSI.sub("", text)[-1500:])
     if p.returncode != 0:
         err = simlib.norm_err(p.stderr.decode("utf-8", "replace")).strip()
         if "couldn't run query" in err or "panic" in err:
